@@ -830,12 +830,12 @@ def _parse_unit(input_: str) -> Optional[Unit]:
     input_ = input_.strip().lower()
     if not isinstance(input_, str):
         raise TypeError(f"type str expected for 'input_', got {type(input_)}")
-    if hasattr(PreferredUnits, input_):
-        return getattr(PreferredUnits, input_)
-    try:
-        return Unit[input_]
-    except KeyError:
-        return _find_unit_by_alias(input_, UnitAliases)
+    if isinstance(preferred := getattr(PreferredUnits, input_, None), Unit):
+        return preferred
+    for unit in Unit:
+        if unit.name.lower() == input_:
+            return unit
+    return _find_unit_by_alias(input_, UnitAliases)
 
 
 def _parse_value(input_: Union[str, float, int],
